@@ -129,6 +129,19 @@ def run_single(rep, prop, tier, seed, n_quick, n_thorough, allow=None, families=
     report(rep, prop, name, results)
 
 
+def run_default_start(rep, tier, seed):
+    """C05 when the caller gives no start: the default start is the projection of 0 onto the box, not 0"""
+    g = Gen(seed + 55)
+    results = []
+    for k in range(40 if tier == "thorough" else 10):
+        case = C.gen_case(g, "convex_qp", {"iteration_limit": 30}, scaling=False)
+        case["x0"], case["y0"] = None, None
+        rec = C.run(case)
+        msg = C.oracle_C05(case, rec)
+        results.append((case, keyof(msg), msg, "default_start/%s" % (rec.get("status") or rec.get("kind"))))
+    report(rep, "C05", "default_start", results)
+
+
 def run_integration(rep, tier, seed):
     """C01 also speaks about the flow-integration solver: its Optimal results are checked by the same KKT oracle.
     (The integration solver is outside the theorems; runs that crash in its own consistency assertions or exceed the
